@@ -2,6 +2,7 @@
 from __future__ import annotations
 
 from .. import drivers as D
+from .. import models
 from ..spec import Spec, vand, veq, vnot
 from . import common as C
 
@@ -14,11 +15,13 @@ ASSUMPTIONS = [
     "state by replaying the history (quick, thorough), every pair split across a dispatch and every ordered triple on the "
     "smaller shapes (thorough); plus all queries in every earlier state of the main dispatcher (staleness)",
     "reset mode: a first episode of every length with all queries asked in every state, then Dispatcher.reset(), then every history with all queries in every state",
+    "observed mode: one of every observer the library ships (history, unscheduled-operations, 7 feature observers + composite, 2 reward "
+    "observers, residual graph updater) is subscribed to the dispatcher; all queries in every state (numpy facade: float32 rounding outside)",
     "in every state an UnscheduledOperationsObserver created only then (late subscription) must report the same view",
     "collections are compared as sets of operation ids plus 'no duplicates'; order is not demanded",
     "is_ongoing/remaining_duration are not among the queries named by the property and are not checked",
 ]
-STUBS = ["max", "min", "int (dispatcher module only)"]
+STUBS = ["max", "min", "int (dispatcher module only)", "np facade (observed mode)"]
 BUDGET = {"quick": 480, "thorough": 3000}
 
 QUERIES = ["current_time", "available_operations", "raw_ready_operations", "unscheduled_operations",
@@ -42,6 +45,7 @@ def subspaces(tier):
         out += C.structure_subspaces(D.shapes(3, 3) + [(2, 2)], 2, False, mode="pairs")
         out += C.structure_subspaces(D.shapes(2, 2), 2, True, only_flexible=True, mode="pairs")
         out += C.structure_subspaces(D.shapes(2, 3), 2, False, mode="reset")
+        out += C.structure_subspaces(D.shapes(3, 3) + [(2, 2)], 2, False, mode="observed")
         for f in ("dominated", "non_idle", "non_immediate_machines", "non_immediate_ops"):
             out += C.structure_subspaces(D.shapes(3, 3), 2, False, canonical=True, mode="pairs", filter=f)
     else:
@@ -49,6 +53,8 @@ def subspaces(tier):
             out += C.structure_subspaces(D.shapes(3, 3) + [(2, 2)], 2, False, mode="pairs", filter=f)
             out += C.structure_subspaces(D.shapes(2, 2), 2, True, only_flexible=True, mode="pairs", filter=f)
         out += C.structure_subspaces(D.shapes(3, 4), 2, False, mode="reset")
+        out += C.structure_subspaces(D.shapes(3, 4), 2, False, mode="observed")
+        out += C.structure_subspaces(D.shapes(3, 3), 2, False, mode="observed", filter="default_pair")
         out += C.structure_subspaces(D.shapes(3, 4), 2, False, mode="pairs")
         out += C.structure_subspaces(D.shapes(3, 3), 2, True, only_flexible=True, mode="pairs")
         out += C.structure_subspaces(D.shapes(3, 4), 2, False, mode="split")
@@ -57,7 +63,7 @@ def subspaces(tier):
 
 
 def cost(sp):
-    return C.cost(sp) * {"pairs": 1, "split": 1, "triples": 14, "reset": 0.2}[sp["mode"]]
+    return C.cost(sp) * {"pairs": 1, "split": 1, "triples": 14, "reset": 0.2, "observed": 0.2}[sp["mode"]]
 
 
 # ---------------------------------------------------------------------------
@@ -204,6 +210,10 @@ def _safe(eng, q, ctx, fn):
         return False, None
 
 
+def extra_models(sp):
+    return models.numpy_facade_models(include_rl=True) if sp["mode"] == "observed" else []
+
+
 def harness(eng, sp):
     from job_shop_lib.dispatching import Dispatcher, UnscheduledOperationsObserver
 
@@ -211,6 +221,9 @@ def harness(eng, sp):
     filt = sp.get("filter")
     main = Dispatcher(inst, ready_operations_filter=C.make_filter(filt) if filt else None)
     main_obs = UnscheduledOperationsObserver(main)
+    if sp["mode"] == "observed":
+        # one of every observer the library ships is subscribed: none of them may disturb what the dispatcher reports
+        C.attach_library_observers(main, inst, "atj")
     spec = Spec(desc)
     if filt:
         # with a filter installed 'available' is what the real filter keeps of a pristine ready list on a replica
